@@ -530,3 +530,31 @@ Proof.
     apply fs_list_install. unfold folder_texts. rewrite map_map. exact Hf.
   - apply IH; assumption.
 Qed.
+
+(* ---------------------------------------------------------------- the in-place enumerate loop *)
+
+Lemma set_nth_app {X : Type} (pre : list X) (x v : X) (r : list X) : set_nth (pre ++ x :: r) (length pre) v = pre ++ v :: r.
+Proof. induction pre as [|y pre IH]; [reflexivity|]. cbn. rewrite IH. reflexivity. Qed.
+
+Lemma nth_app_here {X : Type} (pre : list X) (x d : X) (r : list X) : nth (length pre) (pre ++ x :: r) d = x.
+Proof. induction pre as [|y pre IH]; [reflexivity|]. cbn. exact IH. Qed.
+
+(* for i, x in enumerate(l): l[i] = f(x)   is   l = [f(x) for x in l] *)
+Lemma for_enum_cur_map {R X : Type} (d : X) (f : X -> X) (body : N -> X -> list X -> out R (list X)) :
+  (forall i x l, body i x l = bind (list_store l i (f x)) (fun l' => Norm l')) ->
+  forall l : list X, for_enum_cur d l (fun l' => l') body l = Norm (map f l).
+Proof.
+  intro Hb. unfold for_enum_cur.
+  assert (G : forall (l pre : list X),
+             for_each (map N.of_nat (seq (length pre) (length l)))
+                      (fun i s' => body i (nth (N.to_nat i) s' d) s') (pre ++ l) = Norm (pre ++ map f l)).
+  { induction l as [|x r IH]; intro pre; [reflexivity|].
+    cbn [length seq map for_each]. rewrite Hb, Nat2N.id, nth_app_here. unfold list_store. rewrite Nat2N.id.
+    assert (Hlt : Nat.ltb (length pre) (length (pre ++ x :: r)) = true)
+      by (apply Nat.ltb_lt; rewrite app_length; cbn; lia).
+    rewrite Hlt. cbn [bind]. rewrite set_nth_app.
+    replace (pre ++ f x :: r) with ((pre ++ [f x]) ++ r) by (rewrite <- app_assoc; reflexivity).
+    replace (S (length pre)) with (length (pre ++ [f x])) by (rewrite app_length; cbn; lia).
+    rewrite IH. rewrite <- app_assoc. reflexivity. }
+  intro l. exact (G l []).
+Qed.
